@@ -1,24 +1,31 @@
+from translators import t_iso_overload
 from props import _arts
 
 ID = "C24"
 TITLE = "Each iso literal resolves to its own generated overload"
-TRANSLATORS = []
-LEAN_MODULES = ["IsoVerif.Props.C24"]
-THEOREMS = ["IsoVerif.Props.C24." + t for t in ("C24_order", "C24_total", "C24_first_match", "C24_witness_double_space")]
+TRANSLATORS = [t_iso_overload.translate]
+LEAN_MODULES = ["IsoVerif.Props.C24", "IsoVerif.Props.C24ws"]
+THEOREMS = ["IsoVerif.Props.C24." + t for t in ("C24_order", "C24_total", "C24_first_match", "C24_witness_double_space",
+                                                "C24_whitespace_set", "C24_witness_formfeed", "C24_witness_bom")]
 HARNESS = ("hx_arts", {"HX_ENGINE": "overloads"})
 DRIVER = "drv_arts"
 CASES = {"quick": 600, "thorough": 20000}
 TECHNIQUE = ("Lean 4 theorems over an executable model of iso_overload_file.rs (sort_field_name, the two sort_by comparators, the pattern text) and of the two TypeScript rules "
              "iso.ts relies on (first accepting overload wins; Whitespace<T> extends `${P}${string}`); correspondence: generated projects whose type and field names are prefixes of one "
-             "another are compiled by the real compiler, the ordered MatchesWhitespaceAndString<'…', T> patterns are read back from the IMPLEMENTATION's iso.ts and compared with the model's "
-             "overload list; oracle: the model's matcher run over the implementation's pattern list for every declaration and header variant")
+             "another are compiled by the real compiler, the ordered MatchesWhitespaceAndString<'…', T> patterns AND the members of `WhitespaceCharacter` are read back from the IMPLEMENTATION's iso.ts "
+             "and compared with the model's overload list and with the set that translator t_iso_overload extracts from the Rust source; oracle: the matcher, stripping leading white space with the "
+             "implementation's own set, run over the implementation's pattern list for every declaration, every canonical header variant (leads drawn from what parse_iso_literal accepts before the keyword: "
+             "space, tab, LF, CR/CR LF as cooked by the template literal) and, in separate cases compiled by the real compiler, literals led by tab, tabs, CR, CR LF, form feed, U+FEFF")
 LEVEL_TEXT = ("Kernel-checked: sort_field_name is a strict total order on distinct names in which a name that extends another sorts first (C24_order); every declaration has an overload and nothing "
               "else does (C24_total); for every program with GraphQL names and unique Type.field per group, every declaration, any leading white space and any continuation that does not extend "
-              "the field name, the first overload whose pattern accepts the literal is the declaration's own (C24_first_match). The order and text of the patterns are tied to the compiler by reading "
+              "the field name, the first overload whose pattern accepts the literal is the declaration's own (C24_first_match); the `WhitespaceCharacter` union in the source today is exactly the set the "
+              "model strips (C24_whitespace_set, regenerated from iso_overload_file.rs on every run). The order and text of the patterns are tied to the compiler by reading "
               "them back from the iso.ts it writes for every generated project (model list = implementation list), and the matcher is evaluated on the implementation's list.")
 LEVEL_NOTE = ("Trusted: Lean kernel; the reading of TypeScript overload resolution and template-literal inference as the two modelled rules (tsc is not installed and is not run); hx_projgen's renderer. "
               "Open finding F17 (C24_witness_double_space): headers the parser accepts but the compiler does not print that way match no specific overload; confirmed by compiling such literals with the real compiler.")
-PARTIAL = ["TypeScript's checker is not run; its two rules (first accepting overload, Whitespace<T> extends `${P}${string}`) are the modelled part",
+PARTIAL = ["white space the iso lexer skips but `WhitespaceCharacter` lacks (form feed, U+FEFF) before the keyword: the property is false there (C24_witness_formfeed, C24_witness_bom; open findings); CR is harmless "
+           "because a template literal's value has CR LF / CR normalised to LF",
+           "TypeScript's checker is not run; its two rules (first accepting overload, Whitespace<T> extends `${P}${string}`) are the modelled part",
            "C24_first_match carries the hypothesis that the header is canonical (keyword, one space, Type.field); for non-canonical headers the property is false (F17, open)"]
 ASSUMPTIONS = ["TypeScript picks the first overload whose parameter type accepts the argument", "Whitespace<T> strips exactly ' ', '\\t', '\\n'"]
 
@@ -28,24 +35,33 @@ def run(ctx):
 
 
 def nontrivial(req, impl):
-    return impl.startswith("ok ") and impl.count(",") >= 2
+    return impl.startswith("ok ") and impl.split(" ")[-1].count(",") >= 1
 
 
 def classify(req, impl):
     op = req.split("\t", 1)[0]
     out = [op + ":" + impl.split(" ")[0]]
+    f = req.split("\t")
+    if op == "ovlws":
+        out.append("ws=" + f[1][3:])
     if impl.startswith("ok "):
-        n = impl.split(" ")[1].count(",") + 1
+        n = impl.split(" ")[2].count(",") + 1
         out.append("patterns=" + ("1-3" if n <= 3 else "4-8" if n <= 8 else "9+"))
     return out
 
 
 def check_distribution(dist, cases):
-    ok = dist.get("class:ovl:ok", 0) + dist.get("class:ovlnc:ok", 0)
+    ok = dist.get("class:ovl:ok", 0) + dist.get("class:ovlnc:ok", 0) + dist.get("class:ovlws:ok", 0)
     if ok * 10 < cases * 9:
         return f"only {ok}/{cases} generated projects are accepted by the compiler"
     if dist.get("class:ovlnc:ok", 0) == 0:
         return "no non-canonical header case was accepted by the real parser"
+    tabs = dist.get("class:ws=tab", 0) + dist.get("class:ws=tabs", 0)
+    if tabs < max(3, cases // 40):
+        return f"only {tabs} cases with tab-led literals compiled by the real compiler"
+    for w in ("cr", "crlf", "ff", "bom"):
+        if dist.get("class:ws=" + w, 0) == 0:
+            return f"no case with leading white space {w}"
     if dist.get("class:patterns=4-8", 0) + dist.get("class:patterns=9+", 0) < cases // 4:
         return "too few projects with several overloads"
     return None
